@@ -4730,6 +4730,115 @@ Section Sem.
                    | match goal with |- grows (if ?b then _ else _) => destruct b end
                    | match goal with |- grows (match ?x with _ => _ end) => destruct x end ].
     Qed.
+
+    (* ---- frames: a covered function reports its entry before anything its body reports; when control reaches the end of
+            the body it reports function_exit and implicit_return last; when an exception leaves the body nothing is
+            reported after what the body reported (no exit is invented) *)
+    Lemma bind_inv {A B} (m : M A) (k : A -> M B) s r s' :
+      bind m k s = (r, s') ->
+      (exists a s1, m s = (Ok a, s1) /\ k a s1 = (r, s')) \/ (forall a, fst (m s) <> Ok a) .
+    Proof.
+      unfold bind. destruct (m s) as [r0 s1] eqn:E. destruct r0; intros E'; try (right; intros a0; cbn; discriminate).
+      left. exists a, s1. split; [reflexivity|exact E'].
+    Qed.
+
+    Lemma ev_ok f n a s : exists r s1, ev f n a s = (Ok r, s1).
+    Proof. Transparent ev notify. unfold ev, notify. destruct (call_if_exists _ _ _ _ _ _ _ _ _). eexists; eexists; reflexivity. Opaque ev notify. Qed.
+    Lemma announce_ok n s : exists s1, announce true true n s = (Ok tt, s1).
+    Proof.
+      Transparent announce RE CF. unfold announce, RE, CF, bind, ret. Opaque announce RE CF.
+      destruct (ev_ok "runtime_event" n [] s) as [r1 [s1 E1]]. rewrite E1.
+      destruct (ev_ok "control_flow_event" n [] s1) as [r2 [s2 E2]]. rewrite E2. eexists; reflexivity.
+    Qed.
+
+    Theorem fun_bracket f fid args fd s r s' :
+      nth_error funs fid = Some fd -> length args = length (f_params fd) ->
+      cov H "function_enter" || cov H "implicit_return" = true ->
+      rrun_fun funs H (S f) fid args s = (r, s') ->
+      exists s0 s1 s2 rb d_body,
+        push_frame fd args s = (Ok tt, s0) /\ log s0 = log s
+        /\ log s1 = log s0 ++ (dels_of "runtime_event" (loc (f_nid fd)) ++ dels_of "control_flow_event" (loc (f_nid fd)))
+                           ++ dels_of "function_enter" (loc (f_nid fd) ++ [AL (repeat AThunk (length (f_params fd))); AS (f_name fd); AB false])
+        /\ rexec_list H (rrun_fun funs H f) f {| r_loop := None; r_fn := Some (f_nid fd, f_name fd) |} (f_body fd) s1 = (rb, s2)
+        /\ log s2 = log s1 ++ d_body
+        /\ match rb with
+           | Ok _ => log s' = log s2 ++ (dels_of "runtime_event" (loc (f_nid fd)) ++ dels_of "control_flow_event" (loc (f_nid fd)))
+                                   ++ dels_of "function_exit" (loc (f_nid fd) ++ [AS (f_name fd); ANone])
+                                   ++ dels_of "implicit_return" (loc (f_nid fd) ++ [AI (Z.of_nat (f_nid fd)); AS (f_name fd); ANone])
+                     /\ r = Ok (p_const KNone)
+           | Exc e => log s' = log s2 /\ r = Exc e
+           | Ret v => log s' = log s2 /\ r = Ok v
+           | _ => log s' = log s2
+           end.
+    Proof.
+      intros Efd Hlen Hon E. cbn [rrun_fun] in E. rewrite Efd in E. cbv zeta in E. rewrite Hon in E.
+      assert (Hpf : exists s0, push_frame fd args s = (Ok tt, s0) /\ log s0 = log s).
+      { unfold push_frame. rewrite Hlen, Nat.eqb_refl. eexists. split; reflexivity. }
+      destruct Hpf as [s0 [Ep L0]].
+      set (body := rexec_list H (rrun_fun funs H f) f {| r_loop := None; r_fn := Some (f_nid fd, f_name fd) |} (f_body fd)) in *.
+      destruct (announce_ok (f_nid fd) s0) as [sa Ea]. pose proof (announce_log (f_nid fd) s0 tt sa Ea) as La.
+      destruct (ev_ok "function_enter" (f_nid fd) [AL (repeat AThunk (length (f_params fd))); AS (f_name fd); AB false] sa) as [q [se Ee]].
+      pose proof (ev_log _ _ _ _ _ _ Ee) as Le.
+      destruct (body se) as [rb s2] eqn:Eb.
+      assert (Gb : grows body).
+      { unfold body. assert (Hs : src_ss (f_body fd) = true).
+        { apply nth_error_In in Efd. rewrite forallb_forall in funs_src. apply funs_src; exact Efd. }
+        exact (proj1 (proj2 (grows_stmt H (rrun_fun funs H f) f (grows_fun f))) (f_body fd) Hs _). }
+      destruct (Gb se) as [db Lb]. rewrite Eb in Lb. cbn [snd] in Lb. fold (log s2) in Lb. fold (log se) in Lb.
+      exists s0, se, s2, rb, db. split; [exact Ep|]. split; [exact L0|]. split; [rewrite Le, La, <- app_assoc; reflexivity|].
+      split; [exact Eb|]. split; [exact Lb|].
+      unfold bind, catch, ret in E. rewrite Ep, Ea, Ee, Eb in E.
+      destruct rb as [[]|e| | |v| |y].
+      - destruct (announce_ok (f_nid fd) s2) as [sb Eb2]. pose proof (announce_log _ _ _ _ Eb2) as Lb2. rewrite Eb2 in E.
+        destruct (ev_ok "function_exit" (f_nid fd) [AS (f_name fd); ANone] sb) as [q1 [sc Ec]]. pose proof (ev_log _ _ _ _ _ _ Ec) as Lc. rewrite Ec in E.
+        destruct (ev_ok "implicit_return" (f_nid fd) [AI (Z.of_nat (f_nid fd)); AS (f_name fd); ANone] sc) as [q2 [sd Ed]]. pose proof (ev_log _ _ _ _ _ _ Ed) as Ld. rewrite Ed in E.
+        cbn in E. inversion E; subst. split; [|reflexivity]. unfold log in *. cbn [eng]. rewrite Ld, Lc, Lb2, <- !app_assoc. reflexivity.
+      - cbn in E. inversion E; subst. split; reflexivity.
+      - cbn in E. inversion E; subst. reflexivity.
+      - cbn in E. inversion E; subst. reflexivity.
+      - cbn in E. inversion E; subst. split; reflexivity.
+      - cbn in E. inversion E; subst. reflexivity.
+      - cbn in E. inversion E; subst. reflexivity.
+    Qed.
+
+    Definition is_announce (d : delivery earg) : Prop := d_hook d = "runtime_event" \/ d_hook d = "control_flow_event".
+    Theorem fun_bracket_events f fid args fd s r s' :
+      nth_error funs fid = Some fd -> length args = length (f_params fd) ->
+      cov H "function_enter" || cov H "implicit_return" = true ->
+      rrun_fun funs H (S f) fid args s = (r, s') ->
+      exists rb d_ann d_enter d_body d_tail,
+        log s' = log s ++ d_ann ++ d_enter ++ d_body ++ d_tail
+        /\ Forall is_announce d_ann /\ Forall (fun d => d_hook d = "function_enter") d_enter
+        /\ (exists s1 s2, rexec_list H (rrun_fun funs H f) f {| r_loop := None; r_fn := Some (f_nid fd, f_name fd) |} (f_body fd) s1 = (rb, s2)
+                          /\ log s2 = log s1 ++ d_body)
+        /\ match rb with
+           | Ok _ => (exists a x i, d_tail = a ++ x ++ i /\ Forall is_announce a /\ Forall (fun d => d_hook d = "function_exit") x
+                                   /\ Forall (fun d => d_hook d = "implicit_return") i) /\ r = Ok (p_const KNone)
+           | Exc e => d_tail = [] /\ r = Exc e
+           | Ret v => d_tail = [] /\ r = Ok v
+           | _ => d_tail = []
+           end.
+    Proof.
+      intros Efd Hlen Hon E.
+      destruct (fun_bracket f fid args fd s r s' Efd Hlen Hon E) as [s0 [s1 [s2 [rb [db [Ep [L0 [L1 [Eb [L2 Hr]]]]]]]]]].
+      assert (Hann : forall n, Forall is_announce (dels_of "runtime_event" (loc n) ++ dels_of "control_flow_event" (loc n))).
+      { intros n. apply Forall_app. split; eapply Forall_impl; try apply dels_of_spec; intros d [Hh _]; [left|right]; exact Hh. }
+      assert (Hk : forall h a, Forall (fun d => d_hook d = h) (dels_of h a)).
+      { intros h a. eapply Forall_impl; [|apply dels_of_spec]. intros d [Hh _]. exact Hh. }
+      exists rb, (dels_of "runtime_event" (loc (f_nid fd)) ++ dels_of "control_flow_event" (loc (f_nid fd))),
+             (dels_of "function_enter" (loc (f_nid fd) ++ [AL (repeat AThunk (length (f_params fd))); AS (f_name fd); AB false])), db,
+             (match rb with
+              | Ok _ => (dels_of "runtime_event" (loc (f_nid fd)) ++ dels_of "control_flow_event" (loc (f_nid fd)))
+                        ++ dels_of "function_exit" (loc (f_nid fd) ++ [AS (f_name fd); ANone])
+                        ++ dels_of "implicit_return" (loc (f_nid fd) ++ [AI (Z.of_nat (f_nid fd)); AS (f_name fd); ANone])
+              | _ => [] end).
+      split.
+      - destruct rb as [[]|e| | |v| |y]; [destruct Hr as [Hr _]|destruct Hr as [Hr _]| | |destruct Hr as [Hr _]| |];
+          rewrite Hr, L2, L1, L0, ?app_nil_r, <- ?app_assoc; reflexivity.
+      - split; [apply Hann|]. split; [apply Hk|]. split; [exists s1, s2; split; [exact Eb|exact L2]|].
+        destruct rb as [[]|e| | |v| |y]; try reflexivity; try (split; [reflexivity|exact (proj2 Hr)]).
+        split; [|exact (proj2 Hr)]. eexists; eexists; eexists. split; [reflexivity|]. split; [apply Hann|]. split; apply Hk.
+    Qed.
   End GrowsRun.
 
 
